@@ -1005,6 +1005,9 @@ func (t *timeline) run() {
 			if ts.MaxDepth >= 2 {
 				t.probe("tree_height3")
 			}
+			if ts.MaxDepth >= 3 {
+				t.probe("tree_height4")
+			}
 			if te != nil {
 				t.violate("O-tree", fmt.Sprintf("after statement %d: %s", i, te.detail), map[string]string{"how": "tree", "class": te.kind}, i)
 				break
